@@ -7,9 +7,11 @@ generated executable model in `Props/C05.lean`).
 -/
 import VectorModel.Glue.Numba
 import VectorModel.Props.C05
+import VectorModel.Exec.Sym
 
 set_option linter.constructorNameAsVariable false
 set_option linter.unusedVariables false
+set_option linter.unusedSimpArgs false
 namespace VG
 open VK
 
@@ -177,7 +179,7 @@ private theorem vec_of_wrap (hd : Vec S) (mom mom' : Bool) (out : Out S B) (ret 
     (hf : fits kind k pass hd.ty.dim hd.ty.lon.isSome = true)
     (h : wrapResult hd hd.ty.be mom out ret = .ok r) :
     ∃ rv, r = .vec rv ∧ nbVecRes hd mom' k pass out ret = .ok (.vec (rv.withMom mom')) ∧ rv.ty.mom = mom ∧
-      rv.ty.be = .obj := by
+      rv.ty.be = .obj ∧ ∃ parts, ret = .vec parts := by
   cases ret with
   | float => simp [retKind] at hk; subst hk; simp [fits] at hf
   | bool => simp [retKind] at hk; subst hk; simp [fits] at hf
@@ -191,7 +193,7 @@ private theorem vec_of_wrap (hd : Vec S) (mom mom' : Bool) (out : Out S B) (ret 
       | ok rv =>
         rw [hw] at h
         obtain ⟨h1, h2, h3⟩ := wrap_nb hd mom mom' raw parts kind k pass rv hbe hk hf hw
-        refine ⟨rv, ?_, ?_, h2, h3⟩
+        refine ⟨rv, ?_, ?_, h2, h3, parts, rfl⟩
         · simpa [Except.map] using h.symm
         · simp [nbVecRes, h1, Except.map]
 
@@ -204,7 +206,7 @@ private theorem gen_vec (ev : Ev S B) (hev : EvTables ev) (m : ModuleId) (sc : L
     (h : dispatch ev m sc ord ops counted = .ok r) :
     ∃ out ret rv, nbLookup ev m sc ord (ops.zip (operandSlots m.info.shape)) = some (out, ret) ∧ r = .vec rv ∧
       nbVecRes hd mom' k pass out ret = .ok (.vec (rv.withMom mom')) ∧ rv.ty.mom = counted.any (·.ty.mom) ∧
-      rv.ty.be = .obj := by
+      rv.ty.be = .obj ∧ ∃ parts, ret = .vec parts := by
   obtain ⟨out, ret, hd', hl, hk, hh', hw⟩ := disp_nb ev hev m sc ord ops counted r h
   rw [hh] at hh'; cases hh'
   have hf' : fits m.kind k pass hd.ty.dim hd.ty.lon.isSome = true := by
@@ -213,17 +215,23 @@ private theorem gen_vec (ev : Ev S B) (hev : EvTables ev) (m : ModuleId) (sc : L
     rcases hmem with rfl | ⟨k', hk', hmem⟩
     · omega
     · exact lookup_lon ev m sc ord _ _ hl hd k' hmem hk'
-  obtain ⟨rv, h1, h2, h3, h4⟩ := vec_of_wrap hd _ mom' out ret m.kind k pass r hbe hk hf' hw
-  exact ⟨out, ret, rv, hl, h1, h2, h3, h4⟩
+  obtain ⟨rv, h1, h2, h3, h4, h5⟩ := vec_of_wrap hd _ mom' out ret m.kind k pass r hbe hk hf' hw
+  exact ⟨out, ret, rv, hl, h1, h2, h3, h4, h5⟩
 
 /-- general form for scalar- and truth-valued dispatches -/
 private theorem gen_scalar (ev : Ev S B) (hev : EvTables ev) (m : ModuleId) (sc : List S) (ord : Option Ord)
     (ops counted : List (Vec S)) (r : Res S B) (hkind : m.kind = .float ∨ m.kind = .bool)
     (h : dispatch ev m sc ord ops counted = .ok r) :
     ∃ out ret, nbLookup ev m sc ord (ops.zip (operandSlots m.info.shape)) = some (out, ret) ∧
-      nbScalarRes out ret = .ok r := by
+      nbScalarRes out ret = .ok r ∧ (ret = .float ∨ ret = .bool) := by
   obtain ⟨out, ret, hd', hl, hk, hh', hw⟩ := disp_nb ev hev m sc ord ops counted r h
-  exact ⟨out, ret, hl, scalar_of_wrap _ _ _ _ _ _ _ hk hkind hw⟩
+  refine ⟨out, ret, hl, scalar_of_wrap _ _ _ _ _ _ _ hk hkind hw, ?_⟩
+  cases ret with
+  | float => exact Or.inl rfl
+  | bool => exact Or.inr rfl
+  | vec parts =>
+    rcases hkind with hkk | hkk <;> rw [hkk] at hk <;>
+    · unfold retKind at hk; split at hk <;> simp_all
 
 -- split `x ∈ [a, b, …]` into one goal per element
 set_option hygiene false in
@@ -249,7 +257,7 @@ theorem c07_prop_agree (ev : Ev S B) (hev : EvTables ev) (a : Acc) (v : Vec S) (
   · cases h
   · rename_i hg
     rw [if_neg hg]
-    obtain ⟨out, ret, hl, hs⟩ :=
+    obtain ⟨out, ret, hl, hs, _⟩ :=
       gen_scalar ev hev a.mod [] none [v] [v] r (by cases a <;> exact Or.inl rfl) h
     have hz : [v].zip (operandSlots a.mod.info.shape) = [(v, a.need - 1)] := by cases a <;> rfl
     rw [hz] at hl
@@ -324,7 +332,7 @@ theorem c07_self_agree (ev : Ev S B) (hev : EvTables ev) (m : ModuleId) (sc : Li
     (k : Nat) (r : Res S B) (hbe : v.ty.be = .obj) (hs : operandSlots m.info.shape = [k])
     (hf : fits m.kind k true v.ty.dim true = true) (h : dispatch ev m sc ord [v] [v] = .ok r) :
     nbSelf ev m sc ord v k = .ok r := by
-  obtain ⟨out, ret, rv, hl, rfl, hv, hm, _⟩ :=
+  obtain ⟨out, ret, rv, hl, rfl, hv, hm, _, _⟩ :=
     gen_vec ev hev m sc ord [v] [v] v k true v.ty.mom r (handler_single v) hbe
       (by
         rw [hs]
@@ -592,7 +600,7 @@ private theorem pred_step (ev : Ev S B) (hev : EvTables ev) (self : Vec S) (args
   · cases h
   · rename_i hd
     simp only [Bool.false_eq_true, if_false, if_neg hd]
-    obtain ⟨out, ret, hl, hr⟩ := gen_scalar ev hev m sc none [self] [self] r hk h
+    obtain ⟨out, ret, hl, hr, _⟩ := gen_scalar ev hev m sc none [self] [self] r hk h
     rw [hs] at hl
     simp only [List.zip_cons_cons, List.zip_nil_right] at hl
     rw [hl]
@@ -633,7 +641,7 @@ theorem c07_to_beta3_agree (ev : Ev S B) (hev : EvTables ev) (K : Consts S) (A :
   · cases h
   · rename_i hd
     simp only [Bool.false_eq_true, if_false, if_neg hd]
-    obtain ⟨out, ret, rv, hl, rfl, hv, hm, _⟩ :=
+    obtain ⟨out, ret, rv, hl, rfl, hv, hm, _, _⟩ :=
       gen_vec ev hev .lorentz_to_beta3 [] none [self] [self] self 2 false self.ty.mom r (handler_single self) hbe
         (Or.inr ⟨3, Or.inr rfl, by simp [operandSlots, operandSlotsGo, ModuleId.info]⟩) rfl h
     have hz : [self].zip (operandSlots ModuleId.lorentz_to_beta3.info.shape) = [(self, 3)] := rfl
@@ -736,5 +744,847 @@ theorem c07_to_agree (ev : Ev S B) (hev : EvTables ev) (K : Consts S) (A : Arith
   each_mem he
   all_goals exact to_step ev hev K self r hbe _ _ _ _ _ rfl rfl h
 
+/-! ### 5. (a) AGREEMENT — two-vector methods with a scalar or truth result (no flavor involved) -/
+
+private theorem pair_scalar (ev : Ev S B) (hev : EvTables ev) (m : ModuleId) (sc : List S) (a b : Vec S) (k1 k2 : Nat)
+    (r : Res S B) (hs : operandSlots m.info.shape = [k1, k2]) (hk : m.kind = .float ∨ m.kind = .bool)
+    (h : dispatch ev m sc none [a, b] [a, b] = .ok r) :
+    ∃ out ret, nbLookup ev m sc none [(a, k1), (b, k2)] = some (out, ret) ∧ nbScalarRes out ret = .ok r ∧
+      (ret = .float ∨ ret = .bool) := by
+  obtain ⟨out, ret, hl, hr, hret⟩ := gen_scalar ev hev m sc none [a, b] [a, b] r hk h
+  rw [hs] at hl
+  exact ⟨out, ret, hl, hr, hret⟩
+
+/-- `dot`, `equal`, `not_equal` on operands of the same dimension -/
+theorem c07_bin_sameDim_scalar (ev : Ev S B) (hev : EvTables ev) (K : Consts S) (b : Bin)
+    (hb : b = .dot ∨ b = .equal ∨ b = .not_equal) (self o : Vec S) (extra : List S) (r : Res S B)
+    (h : binary ev K b self o extra = .ok r) : nbBin ev K b self o extra = .ok r := by
+  have hdim : o.ty.dim = self.ty.dim := by
+    rcases hb with rfl | rfl | rfl <;>
+    · by_cases hne : o.ty.dim = self.ty.dim
+      · exact hne
+      · simp [binary, hne] at h
+  rcases hb with rfl | rfl | rfl <;> rcases c05_dim_range self.ty with hd | hd | hd <;>
+  · simp only [binary, hdim, hd, bne_self_eq_false, Bool.false_eq_true, if_false, Bin.sameDimMod] at h
+    obtain ⟨out, ret, hl, hr, hret⟩ := pair_scalar ev hev _ [] self o _ _ r rfl (by first | exact Or.inl rfl | exact Or.inr rfl) h
+    simp only [nbBin, nbBinaryG, Bin.nbGroup, hdim, hd, bne_self_eq_false, Bool.and_false, Bool.false_eq_true, if_false,
+      Nat.min_self, Bin.nbMod, Bin.sameDimMod, Nat.reduceSub, Nat.reduceAdd, hl]
+    rcases hret with rfl | rfl <;> exact hr
+
+/-- `isclose` on operands of the same dimension, with the default or explicit `rtol, atol, equal_nan` -/
+theorem c07_isclose_agree (ev : Ev S B) (hev : EvTables ev) (K : Consts S) (self o : Vec S) (extra : List S)
+    (r : Res S B) (h : binary ev K .isclose self o extra = .ok r) : nbBin ev K .isclose self o extra = .ok r := by
+  have hdim : o.ty.dim = self.ty.dim := by
+    by_cases hne : o.ty.dim = self.ty.dim
+    · exact hne
+    · simp [binary, hne] at h
+  rcases c05_dim_range self.ty with hd | hd | hd <;>
+  · simp only [binary, hdim, hd, bne_self_eq_false, Bool.false_eq_true, if_false, Bin.sameDimMod] at h
+    obtain ⟨out, ret, hl, hr, hret⟩ := pair_scalar ev hev _ _ self o _ _ r rfl (Or.inr rfl) h
+    simp only [nbBin, nbIsclose, hdim, hd, bne_self_eq_false, Bool.false_eq_true, if_false, Bin.sameDimMod,
+      Nat.reduceSub, hl]
+    exact hr
+
+/-- `is_parallel`, `is_antiparallel`, `is_perpendicular` on operands of the same dimension, with the default or an
+explicit tolerance -/
+theorem c07_tol_agree (ev : Ev S B) (hev : EvTables ev) (K : Consts S) (b : Bin)
+    (hb : b = .is_parallel ∨ b = .is_antiparallel ∨ b = .is_perpendicular) (self o : Vec S) (extra : List S)
+    (hx : extra = [] ∨ ∃ t, extra = [t]) (r : Res S B)
+    (h : binary ev K b self o extra = .ok r) : nbBin ev K b self o extra = .ok r := by
+  have hdim : o.ty.dim = self.ty.dim := by
+    rcases hb with rfl | rfl | rfl <;>
+    · by_cases hne : o.ty.dim = self.ty.dim
+      · exact hne
+      · simp [binary, hne] at h
+  obtain ⟨t, ht⟩ : ∃ t, (if extra.isEmpty then [K.tol] else extra) = [t] := by
+    rcases hx with rfl | ⟨t, rfl⟩
+    · exact ⟨K.tol, rfl⟩
+    · exact ⟨t, rfl⟩
+  rcases hb with rfl | rfl | rfl <;> rcases c05_dim_range self.ty with hd | hd | hd <;>
+  · simp only [binary, hdim, hd, bne_self_eq_false, Bool.false_eq_true, if_false, Bin.sameDimMod, ht] at h
+    obtain ⟨out, ret, hl, hr, hret⟩ := pair_scalar ev hev _ _ self o _ _ r rfl (Or.inr rfl) h
+    simp only [nbBin, ht, nbTol, nbTolCore, hdim, hd, bne_self_eq_false, Bool.false_eq_true, if_false, Bin.sameDimMod,
+      beq_self_eq_true, Bool.and_false, Bool.false_and, Bool.and_self, if_true, Nat.reduceAdd, Nat.reduceBEq,
+      Nat.reduceBneDiff, hl]
+    exact hr
+
+/-- `deltaphi` (any two dimensions), `deltaangle`, `deltaeta`, `deltaR`, `deltaR2` (3D/4D with 3D/4D),
+`deltaRapidityPhi`, `deltaRapidityPhi2` (4D with 4D) -/
+theorem c07_delta_agree (ev : Ev S B) (hev : EvTables ev) (K : Consts S) (b : Bin)
+    (hb : b ∈ [Bin.deltaphi, .deltaangle, .deltaeta, .deltaR, .deltaR2, .deltaRapidityPhi, .deltaRapidityPhi2])
+    (self o : Vec S) (extra : List S) (r : Res S B)
+    (h : binary ev K b self o extra = .ok r) : nbBin ev K b self o extra = .ok r := by
+  each_mem hb
+  · simp only [binary] at h
+    obtain ⟨out, ret, hl, hr, hret⟩ := pair_scalar ev hev _ _ self o _ _ r rfl (Or.inl rfl) h
+    have hd : ¬ self.ty.dim < 2 := by rcases c05_dim_range self.ty with hd | hd | hd <;> omega
+    simp only [nbBin, nbBinaryG, Bin.nbGroup, Bin.nbMod, hd, decide_false, Bool.false_eq_true, if_false,
+      Nat.reduceAdd, hl, beq_iff_eq, reduceCtorEq, Bool.or_self, Bool.false_and]
+    rcases hret with rfl | rfl <;> exact hr
+  all_goals
+    simp only [binary] at h
+    split at h
+    · cases h
+    · rename_i hd
+      split at h
+      · cases h
+      · obtain ⟨out, ret, hl, hr, hret⟩ := pair_scalar ev hev _ _ self o _ _ r rfl (Or.inl rfl) h
+        simp only [nbBin, nbBinaryG, Bin.nbGroup, Bin.nbMod, hd, decide_false, Bool.false_eq_true, if_false,
+          Nat.reduceAdd, hl, beq_iff_eq, reduceCtorEq, Bool.or_self, Bool.false_and]
+        rcases hret with rfl | rfl <;> exact hr
+
+/-! ### 6. two-vector methods with a vector result: same coordinates, flavor by the overload's rule -/
+
+private theorem pair_vec (ev : Ev S B) (hev : EvTables ev) (m : ModuleId) (sc : List S) (a b : Vec S) (k1 k2 k : Nat)
+    (pass : Bool) (mom' : Bool) (r : Res S B) (hs : operandSlots m.info.shape = [k1, k2])
+    (ha : a.ty.be = .obj) (hb : b.ty.be = .obj) (hk1 : k = 1 ∨ k1 = 2 ∨ k1 = 3)
+    (hf : fits m.kind k pass a.ty.dim true = true) (h : dispatch ev m sc none [a, b] [a, b] = .ok r) :
+    ∃ out ret rv, nbLookup ev m sc none [(a, k1), (b, k2)] = some (out, ret) ∧ (∃ parts, ret = .vec parts) ∧
+      r = .vec rv ∧ nbVecRes a mom' k pass out ret = .ok (.vec (rv.withMom mom')) ∧
+      rv.ty.mom = (a.ty.mom || b.ty.mom) ∧ rv.ty.be = .obj := by
+  obtain ⟨out, ret, rv, hl, h1, h2, h3, h4, h5⟩ :=
+    gen_vec ev hev m sc none [a, b] [a, b] a k pass mom' r (handler_pair_obj a b hb) ha
+      (by
+        rcases hk1 with h1 | h1
+        · exact Or.inl h1
+        · exact Or.inr ⟨k1, h1, by rw [hs]; simp⟩) hf h
+  rw [hs] at hl
+  refine ⟨out, ret, rv, hl, h5, h1, h2, ?_, h4⟩
+  simpa using h3
+
+/-- `add`, `subtract` on operands of the same dimension: the compiled code returns the interpreter's vector — same
+dimension, coordinate system and coordinates — with flavor `self.mom && o.mom`, where the interpreter has
+`self.mom || o.mom` -/
+theorem c07_addsub (ev : Ev S B) (hev : EvTables ev) (K : Consts S) (b : Bin) (hb : b = .add ∨ b = .subtract)
+    (self o : Vec S) (extra : List S) (r : Res S B) (hs : self.ty.be = .obj) (ho : o.ty.be = .obj)
+    (h : binary ev K b self o extra = .ok r) :
+    ∃ rv, r = .vec rv ∧ rv.ty.mom = (self.ty.mom || o.ty.mom) ∧
+      nbBin ev K b self o extra = .ok (.vec (rv.withMom (self.ty.mom && o.ty.mom))) := by
+  have hdim : o.ty.dim = self.ty.dim := by
+    rcases hb with rfl | rfl <;>
+    · by_cases hne : o.ty.dim = self.ty.dim
+      · exact hne
+      · simp [binary, hne] at h
+  rcases hb with rfl | rfl <;> rcases c05_dim_range self.ty with hd | hd | hd <;>
+  · simp only [binary, hdim, hd, bne_self_eq_false, Bool.false_eq_true, if_false, Bin.sameDimMod] at h
+    obtain ⟨out, ret, rv, hl, ⟨parts, rfl⟩, rfl, hv, hm, _⟩ :=
+      pair_vec ev hev _ [] self o _ _ (self.ty.dim - 1) false (self.ty.mom && o.ty.mom) r rfl hs ho
+        (by rw [hd]; simp) (by rw [hd]; rfl) h
+    refine ⟨rv, rfl, hm, ?_⟩
+    rw [hd] at hv
+    simp only [nbBin, nbBinaryG, Bin.nbGroup, hdim, hd, bne_self_eq_false, Bool.and_false, Bool.false_eq_true, if_false,
+      Nat.min_self, Bin.nbMod, Bin.sameDimMod, Nat.reduceSub, Nat.reduceAdd, hl, nbFlavor]
+    exact hv
+
+private theorem toDim_same (z : S) (n : Nat) (v : Vec S) (h : v.ty.dim = n) : toDim z n v [] [] 0 = .ok v := by
+  simp [toDim, h]
+
+/-- `cross` of two 3D vectors: same coordinates, flavor `self.mom && o.mom` (interpreter: `||`) -/
+theorem c07_cross (ev : Ev S B) (hev : EvTables ev) (K : Consts S) (self o : Vec S) (extra : List S) (r : Res S B)
+    (hs : self.ty.be = .obj) (ho : o.ty.be = .obj) (h : binary ev K .cross self o extra = .ok r) :
+    ∃ rv, r = .vec rv ∧ rv.ty.mom = (self.ty.mom || o.ty.mom) ∧
+      nbBin ev K .cross self o extra = .ok (.vec (rv.withMom (self.ty.mom && o.ty.mom))) := by
+  simp only [binary] at h
+  split at h
+  · cases h
+  · split at h
+    · cases h
+    · rename_i h1 h2
+      have hd : self.ty.dim = 3 := by simp at h2; exact h2.1
+      have hd' : o.ty.dim = 3 := by simp at h2; exact h2.2
+      obtain ⟨out, ret, rv, hl, ⟨parts, rfl⟩, rfl, hv, hm, _⟩ :=
+        pair_vec ev hev _ [] self o _ _ 2 false (self.ty.mom && o.ty.mom) r rfl hs ho (Or.inr (Or.inl rfl)) rfl h
+      refine ⟨rv, rfl, hm, ?_⟩
+      simp only [nbBin, nbCross, nbToVector, toDim_same _ _ _ hd, toDim_same _ _ _ hd', hd, hd', Nat.lt_irrefl,
+        decide_false, Bool.or_self, Bool.false_eq_true, if_false, hl, nbFlavor]
+      exact hv
+
+private theorem scaleN_be_mom (ev : Ev S B) (n : Nat) (f : S) (o w : Vec S) (ho : o.ty.be = .obj)
+    (h : scaleN ev n f o = .ok (.vec w)) : w.ty.be = .obj ∧ w.ty.mom = o.ty.mom := by
+  unfold scaleN at h
+  split at h
+  · cases h
+  · obtain ⟨hd, hh, h1, h2⟩ := c05_dispatch_be_mom ev _ _ _ _ _ _ h
+    rw [handler_single] at hh
+    cases hh
+    exact ⟨by rw [h1, ho], by simpa using h2⟩
+
+/-- the boosts (`boost_p4`, `boost_beta3`, `boost`, `boostCM_of_p4`, `boostCM_of_beta3`, `boostCM_of`) with the operand
+dimensions the interpreter accepts: same coordinates; the compiled result has the class of `self` ALONE (flavor
+`self.mom`), the interpreter's is momentum if either operand is -/
+theorem c07_boost (ev : Ev S B) (hev : EvTables ev) (K : Consts S) (b : Bin)
+    (hb : b ∈ [Bin.boost_p4, .boost_beta3, .boost, .boostCM_of_p4, .boostCM_of_beta3, .boostCM_of])
+    (self o : Vec S) (extra : List S) (r : Res S B) (hs : self.ty.be = .obj) (ho : o.ty.be = .obj)
+    (h : binary ev K b self o extra = .ok r) :
+    ∃ rv, r = .vec rv ∧ rv.ty.mom = (self.ty.mom || o.ty.mom) ∧
+      nbBin ev K b self o extra = .ok (.vec (rv.withMom self.ty.mom)) := by
+  have hp4 : ∀ (w : Vec S) (r : Res S B), w.ty.be = .obj →
+      dispatch ev .lorentz_boost_p4 [] none [self, w] [self, w] = .ok r → ¬ self.ty.dim < 4 →
+      ∃ rv, r = .vec rv ∧ rv.ty.mom = (self.ty.mom || w.ty.mom) ∧
+        nbBoostP4 ev self w = .ok (.vec (rv.withMom self.ty.mom)) := by
+    intro w r hw h hd
+    obtain ⟨out, ret, rv, hl, _, rfl, hv, hm, _⟩ :=
+      pair_vec ev hev _ [] self w _ _ 3 true self.ty.mom r rfl hs hw (Or.inr (Or.inr rfl)) rfl h
+    refine ⟨rv, rfl, hm, ?_⟩
+    simp only [nbBoostP4, hd, if_false, hl]
+    exact hv
+  have hb3 : ∀ (w : Vec S) (r : Res S B), w.ty.be = .obj →
+      dispatch ev .lorentz_boost_beta3 [] none [self, w] [self, w] = .ok r → ¬ self.ty.dim < 4 →
+      ∃ rv, r = .vec rv ∧ rv.ty.mom = (self.ty.mom || w.ty.mom) ∧
+        nbBoostBeta3 ev self w = .ok (.vec (rv.withMom self.ty.mom)) := by
+    intro w r hw h hd
+    obtain ⟨out, ret, rv, hl, _, rfl, hv, hm, _⟩ :=
+      pair_vec ev hev _ [] self w _ _ 3 true self.ty.mom r rfl hs hw (Or.inr (Or.inr rfl)) rfl h
+    refine ⟨rv, rfl, hm, ?_⟩
+    simp only [nbBoostBeta3, hd, if_false, hl]
+    exact hv
+  each_mem hb
+  · -- boost_p4
+    simp only [binary] at h
+    split at h
+    · cases h
+    · rename_i hd
+      split at h
+      · cases h
+      · simpa only [nbBin] using hp4 o r ho h hd
+  · -- boost_beta3
+    simp only [binary] at h
+    split at h
+    · cases h
+    · rename_i hd
+      split at h
+      · cases h
+      · simpa only [nbBin] using hb3 o r ho h hd
+  · -- boost
+    simp only [binary] at h
+    split at h
+    · cases h
+    · rename_i hd
+      simp only [nbBin, hd, if_false]
+      split at h
+      · rename_i h3
+        simp only [h3, if_true]
+        exact hb3 o r ho h hd
+      · rename_i h3
+        simp only [h3, Bool.false_eq_true, if_false]
+        split at h
+        · rename_i h4
+          simp only [h4, if_true]
+          exact hp4 o r ho h hd
+        · cases h
+  all_goals
+    -- boostCM_of_p4, boostCM_of_beta3, boostCM_of
+    simp only [binary] at h
+    split at h
+    · cases h
+    · rename_i hd
+      split at h
+      · cases h
+      · rename_i hw
+        split at h
+        · rename_i n hn
+          obtain ⟨hnb, hnm⟩ := scaleN_be_mom ev 3 K.negOne o n ho hn
+          have hnn : nbNegN ev K 3 o = .ok (.vec n) :=
+            c07_scaleN_agree ev hev 3 (Or.inr (Or.inl rfl)) K.negOne o _ ho hn
+          simp only [nbBin, hd, if_false, hnn]
+          simp at hw
+          rw [← hnm]
+          first
+            | (have h4 : o.ty.dim = 4 := by omega
+               simp only [h4, beq_self_eq_true, if_true] at h
+               first
+                 | exact hp4 n r hnb h hd
+                 | (simp only [h4, Nat.reduceBEq, Bool.false_eq_true, if_false, bne_self_eq_false, Bool.and_false,
+                      Nat.reduceBneDiff, Bool.and_self]
+                    exact hp4 n r hnb h hd))
+            | (have h3 : o.ty.dim = 3 := by omega
+               simp only [h3, Nat.reduceBEq, Bool.false_eq_true, if_false] at h
+               first
+                 | exact hb3 n r hnb h hd
+                 | (simp only [h3, beq_self_eq_true, if_true, bne_self_eq_false, Bool.false_and, Bool.false_eq_true,
+                      if_false]
+                    exact hb3 n r hnb h hd))
+            | (rcases (by omega : o.ty.dim = 3 ∨ o.ty.dim = 4) with h3 | h4
+               · simp only [h3, Nat.reduceBEq, Bool.false_eq_true, if_false] at h
+                 simp only [h3, beq_self_eq_true, if_true, bne_self_eq_false, Bool.false_and, Bool.false_eq_true,
+                      if_false]
+                 exact hb3 n r hnb h hd
+               · simp only [h4, beq_self_eq_true, if_true] at h
+                 simp only [h4, Nat.reduceBEq, Bool.false_eq_true, if_false, bne_self_eq_false, Bool.and_false,
+                      Nat.reduceBneDiff, Bool.and_self]
+                 exact hp4 n r hnb h hd)
+        · cases h
+        · cases h
+
+/-! ### 7. (a) AGREEMENT — every two-vector method, operands of the same flavor -/
+
+private theorem withMom_of_eq (rv : Vec S) (m : Bool) (h : rv.ty.mom = m) : rv.withMom m = rv := by
+  subst h; rfl
+
+/-- enum level, all 23 two-vector methods: whenever the interpreter succeeds and the operands have the SAME flavor, the
+compiled code evaluates the same compute module on the same key with the same arguments in the same order and returns
+the same value — for vectors: same class, flavor, dimension, coordinate system and coordinates -/
+theorem c07_binary_agree (ev : Ev S B) (hev : EvTables ev) (K : Consts S) (b : Bin) (self o : Vec S) (extra : List S)
+    (r : Res S B) (hs : self.ty.be = .obj) (ho : o.ty.be = .obj) (hm : self.ty.mom = o.ty.mom)
+    (hx : extra = [] ∨ ∃ t, extra = [t]) (h : binary ev K b self o extra = .ok r) :
+    nbBin ev K b self o extra = .ok r := by
+  have vecCase : ∀ (f : Bool), (f = self.ty.mom) →
+      (∃ rv, r = .vec rv ∧ rv.ty.mom = (self.ty.mom || o.ty.mom) ∧
+        nbBin ev K b self o extra = .ok (.vec (rv.withMom f))) → nbBin ev K b self o extra = .ok r := by
+    rintro f rfl ⟨rv, rfl, hrm, hn⟩
+    rw [hn, withMom_of_eq rv _ (by rw [hrm, ← hm]; simp)]
+  cases b
+  case add => exact vecCase _ (by rw [← hm]; simp) (c07_addsub ev hev K _ (Or.inl rfl) self o extra r hs ho h)
+  case subtract => exact vecCase _ (by rw [← hm]; simp) (c07_addsub ev hev K _ (Or.inr rfl) self o extra r hs ho h)
+  case dot => exact c07_bin_sameDim_scalar ev hev K _ (Or.inl rfl) self o extra r h
+  case equal => exact c07_bin_sameDim_scalar ev hev K _ (Or.inr (Or.inl rfl)) self o extra r h
+  case not_equal => exact c07_bin_sameDim_scalar ev hev K _ (Or.inr (Or.inr rfl)) self o extra r h
+  case isclose => exact c07_isclose_agree ev hev K self o extra r h
+  case is_parallel => exact c07_tol_agree ev hev K _ (Or.inl rfl) self o extra hx r h
+  case is_antiparallel => exact c07_tol_agree ev hev K _ (Or.inr (Or.inl rfl)) self o extra hx r h
+  case is_perpendicular => exact c07_tol_agree ev hev K _ (Or.inr (Or.inr rfl)) self o extra hx r h
+  case cross => exact vecCase _ (by rw [← hm]; simp) (c07_cross ev hev K self o extra r hs ho h)
+  case boost_p4 => exact vecCase _ rfl (c07_boost ev hev K _ (by simp) self o extra r hs ho h)
+  case boost_beta3 => exact vecCase _ rfl (c07_boost ev hev K _ (by simp) self o extra r hs ho h)
+  case boost => exact vecCase _ rfl (c07_boost ev hev K _ (by simp) self o extra r hs ho h)
+  case boostCM_of_p4 => exact vecCase _ rfl (c07_boost ev hev K _ (by simp) self o extra r hs ho h)
+  case boostCM_of_beta3 => exact vecCase _ rfl (c07_boost ev hev K _ (by simp) self o extra r hs ho h)
+  case boostCM_of => exact vecCase _ rfl (c07_boost ev hev K _ (by simp) self o extra r hs ho h)
+  all_goals exact c07_delta_agree ev hev K _ (by simp) self o extra r h
+
+/-- scalar- and truth-valued two-vector methods agree WHATEVER the flavors of the operands -/
+theorem c07_binary_scalar_agree (ev : Ev S B) (hev : EvTables ev) (K : Consts S) (b : Bin) (self o : Vec S)
+    (extra : List S) (r : Res S B) (hb : b ∉ [Bin.add, .subtract, .cross, .boost_p4, .boost_beta3, .boost,
+      .boostCM_of_p4, .boostCM_of_beta3, .boostCM_of])
+    (hx : extra = [] ∨ ∃ t, extra = [t]) (h : binary ev K b self o extra = .ok r) :
+    nbBin ev K b self o extra = .ok r := by
+  cases b <;> simp at hb
+  case dot => exact c07_bin_sameDim_scalar ev hev K _ (Or.inl rfl) self o extra r h
+  case equal => exact c07_bin_sameDim_scalar ev hev K _ (Or.inr (Or.inl rfl)) self o extra r h
+  case not_equal => exact c07_bin_sameDim_scalar ev hev K _ (Or.inr (Or.inr rfl)) self o extra r h
+  case isclose => exact c07_isclose_agree ev hev K self o extra r h
+  case is_parallel => exact c07_tol_agree ev hev K _ (Or.inl rfl) self o extra hx r h
+  case is_antiparallel => exact c07_tol_agree ev hev K _ (Or.inr (Or.inl rfl)) self o extra hx r h
+  case is_perpendicular => exact c07_tol_agree ev hev K _ (Or.inr (Or.inr rfl)) self o extra hx r h
+  all_goals exact c07_delta_agree ev hev K _ (by simp) self o extra r h
+
+/-- the 23 two-vector method names -/
+def c07_binNames : List (String × Bin) :=
+  [("add", .add), ("subtract", .subtract), ("dot", .dot), ("equal", .equal), ("not_equal", .not_equal), ("isclose", .isclose), ("is_parallel", .is_parallel), ("is_antiparallel", .is_antiparallel), ("is_perpendicular", .is_perpendicular), ("deltaphi", .deltaphi), ("deltaangle", .deltaangle), ("deltaeta", .deltaeta), ("deltaR", .deltaR), ("deltaR2", .deltaR2), ("deltaRapidityPhi", .deltaRapidityPhi), ("deltaRapidityPhi2", .deltaRapidityPhi2), ("cross", .cross), ("boost_p4", .boost_p4), ("boost_beta3", .boost_beta3), ("boost", .boost), ("boostCM_of_p4", .boostCM_of_p4), ("boostCM_of_beta3", .boostCM_of_beta3), ("boostCM_of", .boostCM_of)]
+
+private theorem bin_step (ev : Ev S B) (hev : EvTables ev) (K : Consts S) (self o : Vec S) (args : List (Arg S))
+    (extra : List S) (r : Res S B) (b : Bin) (c n : Except Err (Res S B))
+    (hc : c = binary ev K b self o extra)
+    (hn : n = if nbGuard self args = true then .error .unmodelled else nbBin ev K b self o extra)
+    (hg : nbGuard self args = false) (hs : self.ty.be = .obj) (ho : o.ty.be = .obj) (hm : self.ty.mom = o.ty.mom)
+    (hx : extra = [] ∨ ∃ t, extra = [t]) (h : c = .ok r) : n = .ok r := by
+  rw [hn, hg]
+  rw [hc] at h
+  simpa using c07_binary_agree ev hev K b self o extra r hs ho hm hx h
+
+/-- string level: `self.<name>(o)` for each of the 23 names, operands of the same flavor -/
+theorem c07_binNames_agree (ev : Ev S B) (hev : EvTables ev) (K : Consts S) (A : Arith S) (self o : Vec S)
+    (r : Res S B) (hs : self.ty.be = .obj) (ho : o.ty.be = .obj) (hm : self.ty.mom = o.ty.mom)
+    (p : String × Bin) (hp : p ∈ c07_binNames)
+    (h : call ev K A p.1 self [.v o] = .ok r) : numbaCall ev K A p.1 self [.v o] = .ok r := by
+  unfold c07_binNames at hp
+  each_mem hp
+  all_goals
+    exact bin_step ev hev K self o _ [] r _ _ _ rfl rfl (by simp [nbGuard, hs, ho, Arg.isObj]) hs ho hm (Or.inl rfl) h
+
+/-- … and `self.is_parallel(o, tolerance)` etc. with an explicit tolerance -/
+theorem c07_tolNames_agree (ev : Ev S B) (hev : EvTables ev) (K : Consts S) (A : Arith S) (self o : Vec S) (t : S)
+    (r : Res S B) (hs : self.ty.be = .obj) (ho : o.ty.be = .obj)
+    (n : String) (hn : n ∈ ["is_parallel", "is_antiparallel", "is_perpendicular"])
+    (h : call ev K A n self [.v o, .sc t] = .ok r) : numbaCall ev K A n self [.v o, .sc t] = .ok r := by
+  have hg : nbGuard self [.v o, .sc t] = false := by simp [nbGuard, hs, ho, Arg.isObj]
+  each_mem hn
+  · have e1 : call ev K A "is_parallel" self [.v o, .sc t] = binary ev K .is_parallel self o [t] := rfl
+    have e2 : numbaCall ev K A "is_parallel" self [.v o, .sc t] =
+        if nbGuard self [.v o, .sc t] = true then .error .unmodelled else nbBin ev K .is_parallel self o [t] := rfl
+    rw [e2, hg]; rw [e1] at h
+    simpa using c07_tol_agree ev hev K _ (Or.inl rfl) self o [t] (Or.inr ⟨t, rfl⟩) r h
+  · have e1 : call ev K A "is_antiparallel" self [.v o, .sc t] = binary ev K .is_antiparallel self o [t] := rfl
+    have e2 : numbaCall ev K A "is_antiparallel" self [.v o, .sc t] =
+        if nbGuard self [.v o, .sc t] = true then .error .unmodelled else nbBin ev K .is_antiparallel self o [t] := rfl
+    rw [e2, hg]; rw [e1] at h
+    simpa using c07_tol_agree ev hev K _ (Or.inr (Or.inl rfl)) self o [t] (Or.inr ⟨t, rfl⟩) r h
+  · have e1 : call ev K A "is_perpendicular" self [.v o, .sc t] = binary ev K .is_perpendicular self o [t] := rfl
+    have e2 : numbaCall ev K A "is_perpendicular" self [.v o, .sc t] =
+        if nbGuard self [.v o, .sc t] = true then .error .unmodelled else nbBin ev K .is_perpendicular self o [t] := rfl
+    rw [e2, hg]; rw [e1] at h
+    simpa using c07_tol_agree ev hev K _ (Or.inr (Or.inr rfl)) self o [t] (Or.inr ⟨t, rfl⟩) r h
+
+/-- `rotate_axis` with a 3D axis: the axis is passed to the compute function, the result has the class of `self` -/
+theorem c07_rotate_axis_agree (ev : Ev S B) (hev : EvTables ev) (K : Consts S) (A : Arith S) (self axis : Vec S) (a : S)
+    (r : Res S B) (hs : self.ty.be = .obj) (ha : axis.ty.be = .obj)
+    (h : call ev K A "rotate_axis" self [.v axis, .sc a] = .ok r) :
+    numbaCall ev K A "rotate_axis" self [.v axis, .sc a] = .ok r := by
+  have e2 : numbaCall ev K A "rotate_axis" self [.v axis, .sc a] =
+      if nbGuard self [.v axis, .sc a] = true then .error .unmodelled else nbRotateAxis ev self axis a := rfl
+  have hg : nbGuard self [.v axis, .sc a] = false := by simp [nbGuard, hs, ha, Arg.isObj]
+  rw [e2, hg]
+  rw [c05_call_rotate_axis] at h
+  split at h
+  · cases h
+  · rename_i hd
+    split at h
+    · cases h
+    · obtain ⟨out, ret, rv, hl, rfl, hv, hmm, _, _⟩ :=
+        gen_vec ev hev .spatial_rotate_axis [a] none [axis, self] [self] self 2 true self.ty.mom r
+          (handler_single self) hs (Or.inr ⟨2, Or.inl rfl, by simp [operandSlots, operandSlotsGo, ModuleId.info]⟩) rfl h
+      have hz : [axis, self].zip (operandSlots ModuleId.spatial_rotate_axis.info.shape) = [(axis, 2), (self, 2)] := rfl
+      rw [hz] at hl
+      simp only [nbRotateAxis, hd, Bool.false_eq_true, if_false, hl]
+      simp only [List.any_cons, List.any_nil, Bool.or_false] at hmm
+      rw [hv, ← hmm]
+      rfl
+
+/-! ### 8. (b) DIFFERENCES — flavor -/
+
+/-- mixed flavors, `add` / `subtract` / `cross`: the interpreter returns a momentum vector, the compiled code the
+generic vector with the same coordinates -/
+theorem c07_mixed_flavor (ev : Ev S B) (hev : EvTables ev) (K : Consts S) (b : Bin)
+    (hb : b = .add ∨ b = .subtract ∨ b = .cross) (self o : Vec S) (extra : List S) (rv : Vec S)
+    (hs : self.ty.be = .obj) (ho : o.ty.be = .obj) (hm : self.ty.mom ≠ o.ty.mom)
+    (h : binary ev K b self o extra = .ok (.vec rv)) :
+    rv.ty.mom = true ∧ nbBin ev K b self o extra = .ok (.vec (rv.withMom false)) := by
+  have key : ∃ rv', (Res.vec rv : Res S B) = Res.vec rv' ∧ rv'.ty.mom = (self.ty.mom || o.ty.mom) ∧
+      nbBin ev K b self o extra = .ok (.vec (rv'.withMom (self.ty.mom && o.ty.mom))) := by
+    rcases hb with rfl | rfl | rfl
+    · exact c07_addsub ev hev K _ (Or.inl rfl) self o extra _ hs ho h
+    · exact c07_addsub ev hev K _ (Or.inr rfl) self o extra _ hs ho h
+    · exact c07_cross ev hev K self o extra _ hs ho h
+  obtain ⟨rv', he, h1, h2⟩ := key
+  cases he
+  have : (self.ty.mom || o.ty.mom) = true ∧ (self.ty.mom && o.ty.mom) = false := by
+    cases hs' : self.ty.mom <;> cases ho' : o.ty.mom <;> simp_all
+  rw [this.1] at h1
+  rw [this.2] at h2
+  exact ⟨h1, h2⟩
+
+/-- boosts: a generic `self` boosted by a momentum vector stays generic in compiled code, the interpreter makes it a
+momentum vector (with a momentum `self` both give a momentum vector) -/
+theorem c07_boost_flavor (ev : Ev S B) (hev : EvTables ev) (K : Consts S) (b : Bin)
+    (hb : b ∈ [Bin.boost_p4, .boost_beta3, .boost, .boostCM_of_p4, .boostCM_of_beta3, .boostCM_of])
+    (self o : Vec S) (extra : List S) (rv : Vec S) (hs : self.ty.be = .obj) (ho : o.ty.be = .obj)
+    (hsm : self.ty.mom = false) (hom : o.ty.mom = true) (h : binary ev K b self o extra = .ok (.vec rv)) :
+    rv.ty.mom = true ∧ nbBin ev K b self o extra = .ok (.vec (rv.withMom false)) := by
+  obtain ⟨rv', he, h1, h2⟩ := c07_boost ev hev K b hb self o extra _ hs ho h
+  cases he
+  rw [hsm, hom] at h1
+  rw [hsm] at h2
+  exact ⟨h1, h2⟩
+
+/-! ### 9. (b) DIFFERENCES — operands of different dimension -/
+
+/-- the interpreter refuses operands of different dimension in all nine same-dimension methods -/
+theorem c07_interp_dim_mismatch (ev : Ev S B) (K : Consts S) (b : Bin)
+    (hb : b ∈ [Bin.add, .subtract, .dot, .equal, .not_equal, .isclose, .is_parallel, .is_antiparallel, .is_perpendicular])
+    (self o : Vec S) (extra : List S) (hne : o.ty.dim ≠ self.ty.dim) :
+    binary ev K b self o extra = .error .typeError := by
+  each_mem hb <;> simp [binary, hne]
+
+/-- compiled `equal`, `not_equal`, `isclose` refuse them too -/
+theorem c07_numba_dim_mismatch (ev : Ev S B) (K : Consts S) (b : Bin)
+    (hb : b = .equal ∨ b = .not_equal ∨ b = .isclose) (self o : Vec S) (extra : List S)
+    (hne : o.ty.dim ≠ self.ty.dim) : nbBin ev K b self o extra = .error .typeError := by
+  have hne' : self.ty.dim ≠ o.ty.dim := fun h => hne h.symm
+  rcases hb with rfl | rfl | rfl <;> simp [nbBin, nbBinaryG, nbIsclose, Bin.nbGroup, hne, hne']
+
+private theorem trunc_key (z : S) (v w : Vec S) (n : Nat) (hw : v.WF) (hn : n = 2 ∨ n = 3 ∨ n = 4) (hle : n ≤ v.ty.dim)
+    (h : toDim z n v [] [] 0 = .ok w) :
+    w.ty.dim = n ∧ w.ty.mom = v.ty.mom ∧ w.ty.be = v.ty.be ∧ w.WF ∧
+      ∀ g, g + 1 ≤ n → operandKey w g = operandKey v g := by
+  obtain ⟨⟨be, mom, az, lon, tmp⟩, c⟩ := v
+  obtain ⟨h1, h2⟩ := hw
+  simp only [VT.dim] at h2 hle h1
+  rcases hn with rfl | rfl | rfl <;> cases lon <;> cases tmp <;> simp at h1 h2 hle <;>
+    simp [toDim, VT.dim] at h <;> subst h <;>
+    (refine ⟨by simp [VT.dim], rfl, rfl, ?_, ?_⟩) <;>
+    (rcases c with _ | ⟨x0, _ | ⟨x1, _ | ⟨x2, _ | ⟨x3, _ | ⟨x4, c⟩⟩⟩⟩⟩ <;> simp at h2) <;>
+    (first
+      | (simp [Vec.WF, VT.dim, Vec.azEl, Vec.lonEl, Vec.tmpEl]; done)
+      | (intro g hg
+         have : g = 0 ∨ g = 1 ∨ g = 2 ∨ g = 3 := by omega
+         rcases this with rfl | rfl | rfl | rfl <;>
+           simp_all [operandKey, Vec.azEl, Vec.lonEl, Vec.tmpEl]))
+
+/-- `to_Vector<n>D()` to a lower or equal dimension of a well-formed vector: dimension `n`, same flavor and backend,
+and the first `n - 1` coordinate groups (type and values) are those of the original -/
+theorem c07_to_Vector_trunc (z : S) (v w : Vec S) (n : Nat) (hw : v.WF) (hn : n = 2 ∨ n = 3 ∨ n = 4)
+    (hle : n ≤ v.ty.dim) (h : nbToVector z n v = .ok w) :
+    w.ty.dim = n ∧ w.ty.mom = v.ty.mom ∧ w.ty.be = v.ty.be ∧ w.WF ∧
+      ∀ g, g + 1 ≤ n → operandKey w g = operandKey v g :=
+  trunc_key z v w n hw hn hle h
+
+private theorem nbLookup_congr (ev : Ev S B) (m : ModuleId) (sc : List S) (ord : Option Ord) (a a' b b' : Vec S)
+    (k1 k2 : Nat) (h1 : operandKey a' k1 = operandKey a k1) (h2 : operandKey b' k2 = operandKey b k2) :
+    nbLookup ev m sc ord [(a', k1), (b', k2)] = nbLookup ev m sc ord [(a, k1), (b, k2)] := by
+  unfold nbLookup
+  simp only [List.mapM_cons, List.mapM_nil, h1, h2]
+
+private theorem nbVecRes_nopass (v v' : Vec S) (mom : Bool) (k : Nat) (out : Out S B) (ret : Ret) :
+    nbVecRes v mom k false out ret = nbVecRes v' mom k false out ret := by
+  unfold nbVecRes
+  split
+  · unfold nbWrap; split <;> rfl
+  · rfl
+
+/-- compiled `add`, `subtract`, `dot` on operands of ANY two dimensions: the result is the one the compiled code gives
+on both operands projected to the lower dimension with `to_Vector<min>D()` -/
+theorem c07_min_dim (ev : Ev S B) (K : Consts S) (b : Bin) (hb : b = .add ∨ b = .subtract ∨ b = .dot)
+    (self o s' o' : Vec S) (extra : List S) (hw1 : self.WF) (hw2 : o.WF)
+    (h1 : nbToVector K.zeroF (min self.ty.dim o.ty.dim) self = .ok s')
+    (h2 : nbToVector K.zeroF (min self.ty.dim o.ty.dim) o = .ok o') :
+    nbBin ev K b self o extra = nbBin ev K b s' o' extra := by
+  have hn : min self.ty.dim o.ty.dim = 2 ∨ min self.ty.dim o.ty.dim = 3 ∨ min self.ty.dim o.ty.dim = 4 := by
+    rcases c05_dim_range self.ty with a | a | a <;> rcases c05_dim_range o.ty with c | c | c <;> rw [a, c] <;> simp
+  obtain ⟨d1, m1, _, _, k1⟩ := trunc_key K.zeroF self s' _ hw1 hn (Nat.min_le_left _ _) h1
+  obtain ⟨d2, m2, _, _, k2⟩ := trunc_key K.zeroF o o' _ hw2 hn (Nat.min_le_right _ _) h2
+  have e1 := k1 (min self.ty.dim o.ty.dim - 1) (by omega)
+  have e2 := k2 (min self.ty.dim o.ty.dim - 1) (by omega)
+  have e3 : ∀ mom k out ret, nbVecRes (B := B) s' mom k false out ret = nbVecRes self mom k false out ret :=
+    fun _ _ _ _ => nbVecRes_nopass _ _ _ _ _ _
+  have hg : (b == .equal || b == .not_equal) = false := by rcases hb with rfl | rfl | rfl <;> decide
+  rcases hb with rfl | rfl | rfl <;>
+    simp only [nbBin, nbBinaryG, nbLookup, List.mapM_cons, List.mapM_nil, e1, e2, e3, d1, d2, m1, m2, Nat.min_self,
+      nbFlavor, Bin.nbGroup, hg, Bool.false_and, Bool.false_eq_true, if_false]
+
+/-- … hence, for `add` / `subtract` of operands of different dimension: the interpreter raises `TypeError`; the compiled
+code returns what the INTERPRETER returns on the projected operands, with flavor `self.mom && o.mom` -/
+theorem c07_min_dim_addsub (ev : Ev S B) (hev : EvTables ev) (K : Consts S) (b : Bin) (hb : b = .add ∨ b = .subtract)
+    (self o s' o' : Vec S) (r : Res S B) (hw1 : self.WF) (hw2 : o.WF) (hs : self.ty.be = .obj) (ho : o.ty.be = .obj)
+    (hne : o.ty.dim ≠ self.ty.dim)
+    (h1 : nbToVector K.zeroF (min self.ty.dim o.ty.dim) self = .ok s')
+    (h2 : nbToVector K.zeroF (min self.ty.dim o.ty.dim) o = .ok o')
+    (h : binary ev K b s' o' [] = .ok r) :
+    binary ev K b self o [] = .error .typeError ∧
+    ∃ rv, r = .vec rv ∧ rv.ty.dim = min self.ty.dim o.ty.dim ∧
+      nbBin ev K b self o [] = .ok (.vec (rv.withMom (self.ty.mom && o.ty.mom))) := by
+  have hn : min self.ty.dim o.ty.dim = 2 ∨ min self.ty.dim o.ty.dim = 3 ∨ min self.ty.dim o.ty.dim = 4 := by
+    rcases c05_dim_range self.ty with a | a | a <;> rcases c05_dim_range o.ty with c | c | c <;> rw [a, c] <;> simp
+  obtain ⟨d1, m1, b1, _, _⟩ := trunc_key K.zeroF self s' _ hw1 hn (Nat.min_le_left _ _) h1
+  obtain ⟨d2, m2, b2, _, _⟩ := trunc_key K.zeroF o o' _ hw2 hn (Nat.min_le_right _ _) h2
+  refine ⟨c07_interp_dim_mismatch ev K b (by rcases hb with rfl | rfl <;> simp) self o [] hne, ?_⟩
+  obtain ⟨rv, hr, hm, hnb⟩ := c07_addsub ev hev K b hb s' o' [] r (by rw [b1, hs]) (by rw [b2, ho]) h
+  refine ⟨rv, hr, ?_, ?_⟩
+  · subst hr
+    have := c05_binary_dim ev hev K b s' o' rv [] h
+    rw [this, d1]
+    rcases hb with rfl | rfl <;> simp
+  · rw [c07_min_dim ev K b (by rcases hb with rfl | rfl <;> simp) self o s' o' [] hw1 hw2 h1 h2, hnb, m1, m2]
+
+/-- … and for `dot`: `TypeError` in the interpreter, the interpreter's value on the projected operands in compiled code -/
+theorem c07_min_dim_dot (ev : Ev S B) (hev : EvTables ev) (K : Consts S)
+    (self o s' o' : Vec S) (r : Res S B) (hw1 : self.WF) (hw2 : o.WF) (hne : o.ty.dim ≠ self.ty.dim)
+    (h1 : nbToVector K.zeroF (min self.ty.dim o.ty.dim) self = .ok s')
+    (h2 : nbToVector K.zeroF (min self.ty.dim o.ty.dim) o = .ok o')
+    (h : binary ev K .dot s' o' [] = .ok r) :
+    binary ev K .dot self o [] = .error .typeError ∧ nbBin ev K .dot self o [] = .ok r := by
+  refine ⟨c07_interp_dim_mismatch ev K .dot (by simp) self o [] hne, ?_⟩
+  rw [c07_min_dim ev K .dot (Or.inr (Or.inr rfl)) self o s' o' [] hw1 hw2 h1 h2]
+  exact c07_bin_sameDim_scalar ev hev K .dot (Or.inl rfl) s' o' [] r h
+
+/-- compiled `is_parallel` / `is_antiparallel` / `is_perpendicular` with a 2D `self` and a 3D or 4D operand: the
+implementation is `self.to_Vector3D().is_parallel(o, tolerance)` WHATEVER the method — so `is_antiparallel` and
+`is_perpendicular` answer the question "is parallel?" (the interpreter raises `TypeError`) -/
+theorem c07_tol_mixed2D_left (ev : Ev S B) (K : Consts S) (b : Bin)
+    (hb : b = .is_parallel ∨ b = .is_antiparallel ∨ b = .is_perpendicular) (self o : Vec S) (extra : List S)
+    (hd : self.ty.dim = 2) (ho : o.ty.dim ≠ 2) :
+    nbBin ev K b self o extra = nbBin ev K .is_parallel self o extra := by
+  rcases hb with rfl | rfl | rfl <;> simp [nbBin, nbTol, hd, ho]
+
+/-- … and the same with a 3D or 4D `self` and a 2D operand: `self.is_parallel(o.to_Vector3D(), tolerance)` -/
+theorem c07_tol_mixed2D_right (ev : Ev S B) (K : Consts S) (b : Bin)
+    (hb : b = .is_parallel ∨ b = .is_antiparallel ∨ b = .is_perpendicular) (self o : Vec S) (extra : List S)
+    (hd : self.ty.dim ≠ 2) (ho : o.ty.dim = 2) :
+    nbBin ev K b self o extra = nbBin ev K .is_parallel self o extra := by
+  rcases hb with rfl | rfl | rfl <;> simp [nbBin, nbTol, hd, ho]
+
+/-- what the mixed 2D case computes: `is_parallel` of the lifted vector in the spatial group -/
+theorem c07_tol_mixed2D_lift (ev : Ev S B) (K : Consts S) (b : Bin)
+    (hb : b = .is_parallel ∨ b = .is_antiparallel ∨ b = .is_perpendicular) (self o w : Vec S) (t : S)
+    (hd : self.ty.dim = 2) (ho : o.ty.dim ≠ 2) (hw : nbToVector K.zeroF 3 self = .ok w) :
+    w.ty.dim = 3 ∧ nbBin ev K b self o [t] = nbBin ev K .is_parallel w o [t] := by
+  have hw3 : w.ty.dim = 3 := by
+    obtain ⟨⟨be, mom, az, lon, tmp⟩, c⟩ := self
+    cases lon <;> cases tmp <;> simp [VT.dim] at hd
+    simp [nbToVector, toDim, VT.dim] at hw
+    subst hw
+    simp [VT.dim]
+  refine ⟨hw3, ?_⟩
+  rw [c07_tol_mixed2D_left ev K b hb self o [t] hd ho]
+  simp [nbBin, nbTol, hd, ho, hw, hw3]
+
+/-- compiled tolerance methods on a 3D and a 4D operand (either order): computed in the spatial group on the azimuthal
+and longitudinal coordinates of both, i.e. on the `to_Vector3D()` projections (the interpreter raises `TypeError`) -/
+theorem c07_tol_mixed34 (ev : Ev S B) (K : Consts S) (b : Bin)
+    (hb : b = .is_parallel ∨ b = .is_antiparallel ∨ b = .is_perpendicular) (self o s' o' : Vec S) (extra : List S)
+    (hw1 : self.WF) (hw2 : o.WF) (hd1 : 3 ≤ self.ty.dim) (hd2 : 3 ≤ o.ty.dim)
+    (h1 : nbToVector K.zeroF 3 self = .ok s') (h2 : nbToVector K.zeroF 3 o = .ok o') :
+    nbBin ev K b self o extra = nbBin ev K b s' o' extra := by
+  obtain ⟨d1, _, _, _, k1⟩ := trunc_key K.zeroF self s' 3 hw1 (Or.inr (Or.inl rfl)) hd1 h1
+  obtain ⟨d2, _, _, _, k2⟩ := trunc_key K.zeroF o o' 3 hw2 (Or.inr (Or.inl rfl)) hd2 h2
+  have e1 := k1 2 (by omega)
+  have e2 := k2 2 (by omega)
+  have n1 : (self.ty.dim == 2) = false := by simp; omega
+  have n2 : (o.ty.dim == 2) = false := by simp; omega
+  rcases hb with rfl | rfl | rfl <;>
+    simp only [nbBin, nbTol, nbTolCore, nbLookup, List.mapM_cons, List.mapM_nil, e1, e2, d1, d2, n1, n2, Nat.reduceBEq,
+      Bool.false_and, Bool.and_false, Bool.false_eq_true, if_false, bne, Bool.not_false, Bool.and_true]
+
+/-- compiled `cross` accepts 4D operands: it is the `cross` of the `to_Vector3D()` projections (the interpreter raises
+`TypeError` unless both are 3D) -/
+theorem c07_cross_4D (ev : Ev S B) (K : Consts S) (self o s' o' : Vec S) (extra : List S)
+    (hw1 : self.WF) (hw2 : o.WF) (hd1 : 3 ≤ self.ty.dim) (hd2 : 3 ≤ o.ty.dim)
+    (h1 : nbToVector K.zeroF 3 self = .ok s') (h2 : nbToVector K.zeroF 3 o = .ok o') :
+    nbBin ev K .cross self o extra = nbBin ev K .cross s' o' extra ∧
+    (self.ty.dim = 4 ∨ o.ty.dim = 4 → binary ev K .cross self o extra = .error .typeError) := by
+  obtain ⟨d1, _, _, _, _⟩ := trunc_key K.zeroF self s' 3 hw1 (Or.inr (Or.inl rfl)) hd1 h1
+  obtain ⟨d2, _, _, _, _⟩ := trunc_key K.zeroF o o' 3 hw2 (Or.inr (Or.inl rfl)) hd2 h2
+  have n1 : ¬ self.ty.dim < 3 := by omega
+  have n2 : ¬ o.ty.dim < 3 := by omega
+  refine ⟨?_, ?_⟩
+  · simp only [nbBin, nbCross, h1, h2, d1, d2, n1, n2, decide_false, Bool.or_self, Bool.false_eq_true, if_false,
+      nbToVector, toDim_same _ _ _ d1, toDim_same _ _ _ d2, Nat.lt_irrefl]
+    simp only [nbToVector] at h1 h2
+    simp only [h1, h2]
+  · intro h4
+    simp only [binary, n1, if_false]
+    rcases h4 with h4 | h4 <;> simp [h4]
+
+/-- compiled `boost_beta3` accepts a 4D "beta3" and uses its azimuthal and longitudinal coordinates, i.e. its
+`to_Vector3D()` projection (the interpreter raises `TypeError`) -/
+theorem c07_boost_beta3_4D (ev : Ev S B) (K : Consts S) (self o o' : Vec S) (extra : List S) (hw2 : o.WF)
+    (hd : self.ty.dim = 4) (hd2 : o.ty.dim = 4) (h2 : nbToVector K.zeroF 3 o = .ok o') :
+    nbBin ev K .boost_beta3 self o extra = nbBin ev K .boost_beta3 self o' extra ∧
+    binary ev K .boost_beta3 self o extra = .error .typeError := by
+  obtain ⟨d2, _, _, _, k2⟩ := trunc_key K.zeroF o o' 3 hw2 (Or.inr (Or.inl rfl)) (by omega) h2
+  have e2 := k2 2 (by omega)
+  refine ⟨?_, ?_⟩
+  · simp only [nbBin, nbBoostBeta3, nbLookup, List.mapM_cons, List.mapM_nil, e2]
+  · simp [binary, hd, hd2]
+
+/-- compiled `rotate_axis` accepts a 4D axis and uses its `to_Vector3D()` projection (the interpreter raises
+`TypeError`) -/
+theorem c07_rotate_axis_4D (ev : Ev S B) (K : Consts S) (A : Arith S) (self axis axis' : Vec S) (a : S)
+    (hw : axis.WF) (hd : 3 ≤ self.ty.dim) (hd2 : axis.ty.dim = 4) (h2 : nbToVector K.zeroF 3 axis = .ok axis') :
+    nbRotateAxis ev self axis a = nbRotateAxis ev self axis' a ∧
+    call ev K A "rotate_axis" self [.v axis, .sc a] = .error .typeError := by
+  obtain ⟨d2, _, _, _, k2⟩ := trunc_key K.zeroF axis axis' 3 hw (Or.inr (Or.inl rfl)) (by omega) h2
+  have e2 := k2 2 (by omega)
+  refine ⟨?_, ?_⟩
+  · simp only [nbRotateAxis, nbLookup, List.mapM_cons, List.mapM_nil, e2]
+  · rw [c05_call_rotate_axis]
+    have : ¬ self.ty.dim < 3 := by omega
+    simp [this, hd2]
+
+/-! ### 10. (b) DIFFERENCES — names, argument forms, error kinds -/
+
+/-- names the interpreter defines (on momentum vectors: the eight short momentum spellings; on all vectors: `to_2D`,
+`to_3D`, `to_4D`, the 20 momentum-spelled coordinate changes; and `like`) that have NO numba overload -/
+def c07_unsupported : List String :=
+  ["e", "e2", "m", "m2", "et", "et2", "mt", "mt2", "to_2D", "to_3D", "to_4D", "to_pxpy", "to_ptphi", "to_pxpypz", "to_pxpytheta", "to_pxpyeta", "to_ptphipz", "to_ptphitheta", "to_ptphieta", "to_pxpypzenergy", "to_pxpypzmass", "to_pxpythetaenergy", "to_pxpythetamass", "to_pxpyetaenergy", "to_pxpyetamass", "to_ptphipzenergy", "to_ptphipzmass", "to_ptphithetaenergy", "to_ptphithetamass", "to_ptphietaenergy", "to_ptphietamass"]
+
+theorem c07_unsupported_disjoint : ∀ n ∈ c07_unsupported, nbSupported.contains n = false := by decide
+
+/-- reading / calling one of them in compiled code does not compile -/
+theorem c07_unsupported_unmodelled (ev : Ev S B) (K : Consts S) (A : Arith S) (self : Vec S) (n : String)
+    (hn : n ∈ c07_unsupported) : numbaCall ev K A n self [] = .error .unmodelled := by
+  unfold c07_unsupported at hn
+  each_mem hn
+  all_goals
+    (refine Eq.trans (b := if nbGuard self [] = true then .error .unmodelled else .error .unmodelled) rfl ?_
+     split <;> rfl)
+
+theorem c07_like_unmodelled (ev : Ev S B) (K : Consts S) (A : Arith S) (self o : Vec S) :
+    numbaCall ev K A "like" self [.v o] = .error .unmodelled := by
+  refine Eq.trans (b := if nbGuard self [.v o] = true then .error .unmodelled else .error .unmodelled) rfl ?_
+  split <;> rfl
+
+/-- the coordinate changes and `to_Vector*D` take NO keyword argument in compiled code (the interpreter accepts the
+value of an imputed coordinate, e.g. `v2.to_xyz(z=3)`, `v2.to_Vector3D(z=3)`) -/
+theorem c07_conversion_kw (ev : Ev S B) (K : Consts S) (A : Arith S) (self : Vec S) (hbe : self.ty.be = .obj)
+    (k : String) (a : S) :
+    numbaCall ev K A "to_xyz" self [.kw k a] = .error .typeError ∧
+    numbaCall ev K A "to_Vector3D" self [.kw k a] = .error .typeError ∧
+    numbaCall ev K A "to_Vector4D" self [.kw k a] = .error .typeError := by
+  have hg : nbGuard self [.kw k a] = false := by simp [nbGuard, hbe, Arg.isObj]
+  refine ⟨?_, ?_, ?_⟩ <;>
+  · refine Eq.trans (b := if nbGuard self [.kw k a] = true then .error .unmodelled else .error .typeError) rfl ?_
+    rw [hg]; rfl
+
+/-- `rotate_euler`: the interpreter lower-cases the order string, the compiled code looks the string up literally — an
+order the interpreter accepts only after lower-casing (e.g. `"ZXZ"`) does not compile -/
+theorem c07_rotate_euler_case (ev : Ev S B) (K : Consts S) (A : Arith S) (self : Vec S) (p t q : S) (s : String)
+    (o : Ord) (hbe : self.ty.be = .obj) (hd : 3 ≤ self.ty.dim) (ho : ordOf s = some o) (hnb : nbOrdOf s = none) :
+    call ev K A "rotate_euler" self [.sc p, .sc t, .sc q, .str s] =
+      dispatch ev .spatial_rotate_euler [p, t, q] (some o) [self] [self] ∧
+    numbaCall ev K A "rotate_euler" self [.sc p, .sc t, .sc q, .str s] = .error .typeError := by
+  have e1 : call ev K A "rotate_euler" self [.sc p, .sc t, .sc q, .str s] =
+      if self.ty.dim < 3 then .error .attributeError else
+        match ordOf s with
+        | some o => callU ev self .spatial_rotate_euler 3 [p, t, q] (some o)
+        | none => .error .typeError := rfl
+  have e2 : numbaCall ev K A "rotate_euler" self [.sc p, .sc t, .sc q, .str s] =
+      if nbGuard self [.sc p, .sc t, .sc q, .str s] = true then .error .unmodelled else
+      if self.ty.dim < 3 then .error .typeError else
+        match nbOrdOf s with
+        | some o => nbU ev self .spatial_rotate_euler 2 [p, t, q] (some o)
+        | none => .error .typeError := rfl
+  have hg : nbGuard self [.sc p, .sc t, .sc q, .str s] = false := by simp [nbGuard, hbe, Arg.isObj]
+  have hd' : ¬ self.ty.dim < 3 := by omega
+  refine ⟨?_, ?_⟩
+  · rw [e1, ho]; simp [hd', callU]
+  · rw [e2, hg, hnb]; simp [hd']
+
+theorem c07_nbOrdOf_upper : nbOrdOf "ZXZ" = none ∧ nbOrdOf "ZYX" = none ∧ nbOrdOf "Zxz" = none := by decide
+
+/-- error kinds: a property / method the vector's class does not have is an `AttributeError` in the interpreter and a
+compile-time error (`.typeError` here) in compiled code, e.g. `z` on a 2D vector -/
+theorem c07_missing_attr (ev : Ev S B) (a : Acc) (v : Vec S) (h : v.ty.dim < a.need) :
+    getAcc ev a v = .error .attributeError ∧ nbProp ev a v = .error .typeError := by
+  simp [getAcc, nbProp, h]
+
 end
+
+/-! ### 11. the generated executable compute layer satisfies the assumption; the main theorems for it -/
+
+section Exec
+open VE
+variable {S : Type} [Scalar S]
+
+/-- the compute layer the drivers use: the generated executable model at an arbitrary scalar type -/
+abbrev evX : Ev S (VE.B S) := fun m k a => Compute.eval (S := S) m k a
+
+theorem c07_exec_evTables : EvTables (evX (S := S)) := c05_exec_evTables
+
+theorem c07_exec_acc_agree (K : Consts S) (A : Arith S) (self : Vec S) (r : Res S (VE.B S)) (hbe : self.ty.be = .obj)
+    (p : String × Acc) (hp : p ∈ c07_accNames ++ c07_momNames) (h : call evX K A p.1 self [] = .ok r) :
+    numbaCall evX K A p.1 self [] = .ok r := by
+  rcases List.mem_append.mp hp with hp | hp
+  · exact c07_acc_agree evX c07_exec_evTables K A self r hbe p hp h
+  · exact c07_mom_agree evX c07_exec_evTables K A self r hbe p hp h
+
+theorem c07_exec_selfMethods_agree (K : Consts S) (A : Arith S) (self : Vec S) (a b c d : S) (r : Res S (VE.B S))
+    (hbe : self.ty.be = .obj) (e : String × List (Arg S) × ModuleId × Nat × List S × Option Ord)
+    (he : e ∈ c07_selfMethods K a b c d) (h : call evX K A e.1 self e.2.1 = .ok r) :
+    numbaCall evX K A e.1 self e.2.1 = .ok r :=
+  c07_selfMethods_agree evX c07_exec_evTables K A self a b c d r hbe e he h
+
+theorem c07_exec_to_agree (K : Consts S) (A : Arith S) (self : Vec S) (r : Res S (VE.B S)) (hbe : self.ty.be = .obj)
+    (e : String × Az × Option Lon × Option Tmp) (he : e ∈ nbToTable) (h : call evX K A e.1 self [] = .ok r) :
+    numbaCall evX K A e.1 self [] = .ok r :=
+  c07_to_agree evX c07_exec_evTables K A self r hbe e he h
+
+theorem c07_exec_binNames_agree (K : Consts S) (A : Arith S) (self o : Vec S) (r : Res S (VE.B S))
+    (hs : self.ty.be = .obj) (ho : o.ty.be = .obj) (hm : self.ty.mom = o.ty.mom) (p : String × Bin)
+    (hp : p ∈ c07_binNames) (h : call evX K A p.1 self [.v o] = .ok r) :
+    numbaCall evX K A p.1 self [.v o] = .ok r :=
+  c07_binNames_agree evX c07_exec_evTables K A self o r hs ho hm p hp h
+
+theorem c07_exec_mixed_flavor (K : Consts S) (b : Bin) (hb : b = .add ∨ b = .subtract ∨ b = .cross) (self o rv : Vec S)
+    (hs : self.ty.be = .obj) (ho : o.ty.be = .obj) (hm : self.ty.mom ≠ o.ty.mom)
+    (h : binary evX K b self o [] = .ok (.vec rv)) :
+    rv.ty.mom = true ∧ nbBin evX K b self o [] = .ok (.vec (rv.withMom false)) :=
+  c07_mixed_flavor evX c07_exec_evTables K b hb self o [] rv hs ho hm h
+
+theorem c07_exec_min_dim_addsub (K : Consts S) (b : Bin) (hb : b = .add ∨ b = .subtract) (self o s' o' : Vec S)
+    (r : Res S (VE.B S)) (hw1 : self.WF) (hw2 : o.WF) (hs : self.ty.be = .obj) (ho : o.ty.be = .obj)
+    (hne : o.ty.dim ≠ self.ty.dim)
+    (h1 : nbToVector K.zeroF (min self.ty.dim o.ty.dim) self = .ok s')
+    (h2 : nbToVector K.zeroF (min self.ty.dim o.ty.dim) o = .ok o') (h : binary evX K b s' o' [] = .ok r) :
+    binary evX K b self o [] = .error .typeError ∧
+    ∃ rv, r = .vec rv ∧ rv.ty.dim = min self.ty.dim o.ty.dim ∧
+      nbBin evX K b self o [] = .ok (.vec (rv.withMom (self.ty.mom && o.ty.mom))) :=
+  c07_min_dim_addsub evX c07_exec_evTables K b hb self o s' o' r hw1 hw2 hs ho hne h1 h2 h
+
+end Exec
+
+/-! ### 12. concrete examples (generated executable model at the symbolic scalar type) -/
+
+section Examples
+open VE
+
+private def K0 : Consts Sym :=
+  ⟨.app "neg" [.nat 1], .sci 0 false 0, .nat 0, .sci 1 true 5, .sci 1 true 5, .sci 1 true 8, .app "bFalse" []⟩
+private def A0 : Arith Sym := ⟨fun f => .app "div" [.nat 1, f], fun a b => .app "pow" [a, b], .sci 25 true 2,
+  .sci 16666666666666666 true 17, fun _ => false⟩
+private def ev0 : Ev Sym Sym := evX
+
+/-- type of a vector result / kind of error / success -/
+private def tyOf : Except Err (Res Sym Sym) → Option VT
+  | .ok (.vec v) => some v.ty
+  | _ => none
+private def errOf : Except Err (Res Sym Sym) → Option Err
+  | .error e => some e
+  | _ => none
+private def isOk : Except Err (Res Sym Sym) → Bool
+  | .ok _ => true
+  | _ => false
+
+private def vx (i : String) : List Sym := [.var ("x" ++ i), .var ("y" ++ i), .var ("z" ++ i), .var ("t" ++ i)]
+private def g2 : Vec Sym := ⟨{ mom := false, az := .xy, lon := none, tmp := none }, (vx "1").take 2⟩
+private def g3 : Vec Sym := ⟨{ mom := false, az := .xy, lon := some .z, tmp := none }, (vx "1").take 3⟩
+private def g4 : Vec Sym := ⟨{ mom := false, az := .xy, lon := some .z, tmp := some .t }, vx "1"⟩
+private def m2 : Vec Sym := ⟨{ mom := true, az := .xy, lon := none, tmp := none }, (vx "2").take 2⟩
+private def m3 : Vec Sym := ⟨{ mom := true, az := .xy, lon := some .z, tmp := none }, (vx "2").take 3⟩
+private def m4 : Vec Sym := ⟨{ mom := true, az := .xy, lon := some .z, tmp := some .t }, vx "2"⟩
+private def g3' : Vec Sym := ⟨{ mom := false, az := .xy, lon := some .z, tmp := none }, (vx "2").take 3⟩
+private def G3 : VT := { mom := false, az := .xy, lon := some .z, tmp := none }
+private def M3 : VT := { mom := true, az := .xy, lon := some .z, tmp := none }
+private def G2 : VT := { mom := false, az := .xy, lon := none, tmp := none }
+private def G4 : VT := { mom := false, az := .xy, lon := some .z, tmp := some .t }
+private def M4 : VT := { mom := true, az := .xy, lon := some .z, tmp := some .t }
+
+-- agreement (same flavor): same class, flavor, dimension, coordinate system
+example : tyOf (numbaCall ev0 K0 A0 "add" m3 [.v m3]) = some M3 ∧ tyOf (call ev0 K0 A0 "add" m3 [.v m3]) = some M3 := by
+  decide
+example : tyOf (numbaCall ev0 K0 A0 "rotateX" m4 [.sc (.var "a")]) = some M4 ∧
+    tyOf (call ev0 K0 A0 "rotateX" m4 [.sc (.var "a")]) = some M4 := by decide
+-- mixed flavors: same coordinates, `mom := false` in compiled code (in both operand orders)
+example : tyOf (numbaCall ev0 K0 A0 "add" g3 [.v m3]) = some G3 ∧ tyOf (call ev0 K0 A0 "add" g3 [.v m3]) = some M3 := by
+  decide
+example : tyOf (numbaCall ev0 K0 A0 "subtract" m3 [.v g3]) = some G3 ∧
+    tyOf (call ev0 K0 A0 "subtract" m3 [.v g3]) = some M3 := by decide
+example : tyOf (numbaCall ev0 K0 A0 "cross" g3 [.v m3]) = some G3 ∧ tyOf (call ev0 K0 A0 "cross" g3 [.v m3]) = some M3 := by
+  decide
+-- boosts: the compiled result has the class of `self` alone
+example : tyOf (numbaCall ev0 K0 A0 "boost_p4" g4 [.v m4]) = some G4 ∧
+    tyOf (call ev0 K0 A0 "boost_p4" g4 [.v m4]) = some M4 := by decide
+example : tyOf (numbaCall ev0 K0 A0 "boost" m4 [.v g3]) = some M4 ∧ tyOf (call ev0 K0 A0 "boost" m4 [.v g3]) = some M4 := by
+  decide
+-- different dimensions: interpreter `TypeError`, compiled code computes in the lower dimension
+example : errOf (call ev0 K0 A0 "add" g4 [.v g3']) = some .typeError ∧
+    tyOf (numbaCall ev0 K0 A0 "add" g4 [.v g3']) = some G3 := by decide
+example : errOf (call ev0 K0 A0 "add" g2 [.v m4]) = some .typeError ∧
+    tyOf (numbaCall ev0 K0 A0 "add" g2 [.v m4]) = some G2 := by decide
+example : errOf (call ev0 K0 A0 "dot" g4 [.v m3]) = some .typeError ∧ isOk (numbaCall ev0 K0 A0 "dot" g4 [.v m3]) = true := by
+  decide
+-- … except `equal`, `not_equal`, `isclose`, which raise in both
+example : errOf (call ev0 K0 A0 "equal" g4 [.v g3']) = some .typeError ∧
+    errOf (numbaCall ev0 K0 A0 "equal" g4 [.v g3']) = some .typeError := by decide
+-- tolerance methods with one 2D operand: `is_antiparallel` compiles to `is_parallel` of the lifted vector
+example : errOf (call ev0 K0 A0 "is_antiparallel" g2 [.v g3']) = some .typeError ∧
+    isOk (numbaCall ev0 K0 A0 "is_antiparallel" g2 [.v g3']) = true := by decide
+-- `cross`, `boost_beta3`, `rotate_axis` accept a 4D second operand in compiled code
+example : errOf (call ev0 K0 A0 "cross" g3 [.v m4]) = some .typeError ∧
+    tyOf (numbaCall ev0 K0 A0 "cross" g3 [.v m4]) = some G3 := by decide
+example : errOf (call ev0 K0 A0 "boost_beta3" g4 [.v m4]) = some .typeError ∧
+    tyOf (numbaCall ev0 K0 A0 "boost_beta3" g4 [.v m4]) = some G4 := by decide
+example : errOf (call ev0 K0 A0 "rotate_axis" g3 [.v m4, .sc (.var "a")]) = some .typeError ∧
+    tyOf (numbaCall ev0 K0 A0 "rotate_axis" g3 [.v m4, .sc (.var "a")]) = some G3 := by decide
+-- names without an overload, keyword arguments
+example : isOk (call ev0 K0 A0 "e" m4 []) = true ∧ errOf (numbaCall ev0 K0 A0 "e" m4 []) = some .unmodelled := by decide
+example : isOk (call ev0 K0 A0 "to_3D" g2 []) = true ∧ errOf (numbaCall ev0 K0 A0 "to_3D" g2 []) = some .unmodelled := by
+  decide
+example : isOk (call ev0 K0 A0 "to_xyz" g2 [.kw "z" (.var "a")]) = true ∧
+    errOf (numbaCall ev0 K0 A0 "to_xyz" g2 [.kw "z" (.var "a")]) = some .typeError := by decide
+-- the hypotheses of the theorems are satisfiable
+example : g4.WF ∧ g3'.WF ∧ g4.ty.be = .obj ∧ g3'.ty.dim ≠ g4.ty.dim ∧ g3.ty.mom ≠ m3.ty.mom := by
+  refine ⟨⟨by decide, by decide⟩, ⟨by decide, by decide⟩, rfl, by decide, by decide⟩
+
+end Examples
+
 end VG
